@@ -32,12 +32,17 @@ type InventoryRule struct {
 	Kind    string   `json:"kind"`    // "writers" | "deleters" | "callers"
 	Family  string   `json:"family"`  // key builder function (qualified) or callee
 	Allowed []string `json:"allowed"` // functions allowed to do it
+	Scope   string   `json:"scope"`   // only sites whose enclosing function name starts with / contains "(" + scope
+	Reason  string   `json:"reason"`
+	ExpectNone bool  `json:"expect_none"`
 }
 
 type BoundedCheck struct {
 	Name string `json:"name"`
 	Cmd  string `json:"cmd"`
 }
+
+var defaultPackages = []string{"./x/...", "./adapter/...", "./ibc/...", "./syscontracts/...", "./app/...", "./types/..."}
 
 func verifDir() string {
 	if d := os.Getenv("VERIF_DIR"); d != "" {
@@ -153,6 +158,9 @@ func runCheck(id string, opts checkOpts) *checkResult {
 		res.exit = 2
 		return res
 	}
+	if len(cfg.Packages) == 0 {
+		cfg.Packages = defaultPackages
+	}
 	prog, err := loadProgram(cfg.Packages, opts.overlay)
 	if err != nil {
 		fmt.Fprintln(os.Stderr, "UNDECIDED: cannot load /repo:", err)
@@ -191,6 +199,13 @@ func runCheck(id string, opts checkOpts) *checkResult {
 			res.undecided = append(res.undecided, fmt.Sprintf("%s: %v", fkey, fr.Err))
 			continue
 		}
+		seenCE := map[string]bool{}
+		for _, ce := range fr.ClauseErrs {
+			if !seenCE[ce] {
+				seenCE[ce] = true
+				res.undecided = append(res.undecided, "clause not evaluable on some path: "+ce)
+			}
+		}
 		for _, o := range fr.Obls {
 			o.env = fr.Env
 		}
@@ -218,8 +233,20 @@ func runCheck(id string, opts checkOpts) *checkResult {
 		}
 	}
 	present := map[string]bool{}
+	coverNow := map[string]string{}
 	for _, o := range all {
+		if o.Cover && strings.HasPrefix(o.Label, "return#") {
+			coverNow[o.Name()] = o.Status
+			continue
+		}
 		present[stableName(o.Name())] = true
+	}
+	coverBase := map[string]string{}
+	for b := range baseline {
+		if i := strings.Index(b, " ="); i > 0 {
+			coverBase[b[:i]] = b[i+2:]
+			delete(baseline, b)
+		}
 	}
 	if len(baseline) > 0 {
 		var missing []string
@@ -232,6 +259,20 @@ func runCheck(id string, opts checkOpts) *checkResult {
 		for _, m := range missing {
 			res.undecided = append(res.undecided, "obligation of the pinned tree no longer generated: "+m)
 		}
+	}
+	if os.Getenv("VERIF_WRITE_BASELINE") != "" && opts.overlay == nil {
+		var names []string
+		for n := range present {
+			names = append(names, n)
+		}
+		for n, s := range coverNow {
+			names = append(names, n+" ="+s)
+		}
+		sort.Strings(names)
+		coverBase = coverNow
+		os.MkdirAll(filepath.Join(verifDir(), "baseline"), 0o755)
+		os.WriteFile(filepath.Join(verifDir(), "baseline", id+".obligations"), []byte("# obligation names (positions stripped) generated on the pinned tree; a name that disappears makes the check UNDECIDED\n"+strings.Join(names, "\n")+"\n"), 0o644)
+		baseline = present
 	}
 	known := loadKnownFindings()
 	nDis := 0
@@ -252,6 +293,15 @@ func runCheck(id string, opts checkOpts) *checkResult {
 			}
 		}
 		if isKnown {
+			continue
+		}
+		if o.Cover && strings.HasPrefix(o.Label, "return#") {
+			// reachability of return sites: compared against the pinned tree's record
+			if was, ok := coverBase[o.Name()]; ok && was == "sat" {
+				res.undecided = append(res.undecided, "vacuity guard: return site reachable on the pinned tree is now unreachable in the model: "+o.Name()+" ("+o.Pos+") ["+o.Status+"]")
+			} else if !ok && len(coverBase) == 0 && o.Status != "unsat" {
+				res.undecided = append(res.undecided, "vacuity guard undecided: "+o.Name()+" ["+o.Status+"]")
+			}
 			continue
 		}
 		if o.Cover {
